@@ -20,8 +20,15 @@ an unprivileged user - real/effective uid 65534 in the forked process, when the 
 of the two configuration directories belong to that user; the others answer EACCES), optional operation key
 "fault": "fsize" (the operation runs with RLIMIT_FSIZE = 0: files are still created / truncated, every write
 fails with EFBIG like on a full disk).  An operation that fails with the operating system's error under such a
-fault has returned nothing; the invariants are checked on what it left behind like after any other operation."""
+fault has returned nothing; the invariants are checked on what it left behind like after any other operation.
+
+Round 6: optional case key "names" = {"etc": parent name, "dirs": [current, legacy]} - the configuration directories
+(or their parent) carry generated names with characters special to glob / fnmatch / regex / formatting / shells,
+blanks, non-ASCII text (all three sub-checks).  client_runs: the model of "a new identifier was requested" follows
+what the stub service answered (a status check that got no answer / a confirmation does not drop the identifier),
+and every history ends with one more plain client run that asks for the identifier."""
 import os
+import re
 import shutil
 import tempfile
 import uuid
@@ -55,7 +62,16 @@ RULE = ("initial state: per configuration directory (current, legacy) absent/pre
         "unprivileged user (uid 65534) with probability 2/5, to whom none / the current / the legacy / both "
         "configuration directories belong (EACCES in the others). Non-trivial there: an operation failed under a "
         "fault while markers exist afterwards, or an identifier was compared in an unprivileged run / after a "
-        "failed identifier operation.")
+        "failed identifier operation. Round 6: in 1 of 2-3 cases the names of the current / legacy configuration "
+        "directory and / or of their parent are generated path components (1-4 fragments out of ordinary words, glob "
+        "bracket expressions - closed / open / negated / ranges -, * ? {a,b}, regular-expression and %-/{}-/$-"
+        "formatting pieces, shell-special characters, blanks, non-ASCII text, or free text over those characters); "
+        "first_steps repeats its prefixes for 15 representative names; non-trivial there: >= 1 register and >= 1 "
+        "unregister in a directory with a generated name. client_runs: every history ends with one more plain client "
+        "run asking for the identifier (when one is established); 'no answer' (unreachable / error / unparsable) is "
+        "as frequent as each plain answer; non-trivial also: a status check (or the check inside a legacy "
+        "registration) that the service confirmed / did not answer on a host with an established identifier but "
+        "no .registered marker in the current directory (a host that so far only ran offline).")
 ASSUMPTIONS = [
     "constants.registered_files / unregistered_files / machine_id_file are redirected to a temp dir and "
     "generate_machine_id is called with destination_file=<temp>/machine-id (its default is bound at import)",
@@ -80,6 +96,17 @@ ASSUMPTIONS = [
     "call (the client then requests a new one) or when a status check / unregistration / legacy registration "
     "removed or replaced the identifier file (observed on the file); identifiers the client sends to the stub "
     "service (insights_id=, /v1/systems/<id>, machine_id in the create call) count as identifiers returned",
+    "client_runs (round 6): a status check - get_registration_status, or the check at the start of a legacy "
+    "handle_registration - that found a valid identifier file counts as 'the host was unregistered' only when the "
+    "stub service ANSWERED so (platform: 404 / 409 / 412 with unregistered_at; legacy: unregistered_at set / no "
+    "entry / 404 / 412) or asked for a new identifier (409 to the create call); when the service confirmed the host, "
+    "was unreachable, answered 500 or something unparsable, no new identifier was requested: the expectation "
+    "stays and the next identifier handed out must equal it (when the identifier file changed during such a "
+    "check, client.get_machine_id() is called right away - a plain call - and its result compared; every history "
+    "ends with one more plain client run asking for the identifier). Unregistration (handle_unregistration) stays "
+    "a request to drop the identity whatever the service says",
+    "directory names (round 6): any path component legal on the file system (no '/', no NUL, not '.' / '..', "
+    "<= 200 bytes, UTF-8 encodable); the statement speaks of 'a configuration directory' without restricting its name",
     "client_runs, injected faults: an operation that ends with an OSError of the code under test while a fault "
     "is active (RLIMIT_FSIZE=0 for that operation / the run is an unprivileged user's) has failed and returned "
     "nothing - no identifier is established, no outcome is classified; a forced regeneration drops the expected "
@@ -131,6 +158,66 @@ def selftest():
     assert render_id(h, "canonical") == "dc194312-e9a1-47e5-a8b7-d1b9f3c2a1d0"
     assert render_id(h, "nohyphen-upper") == h.upper() and render_id(h, "newline").endswith("d0\n")
     assert str(uuid.UUID(render_id(h, "upper").strip())) == render_id(h, "canonical")
+    assert name_labels({}) == ["names:default"] and dir_names({"names": None}) == DEFAULT_NAMES
+    lab = name_labels({"names": {"etc": "etc", "dirs": ["conf[staging]", "my conf*"]}})
+    assert "names:glob-pattern-not-matching-itself" in lab and "names:blank" in lab and "names:shell-special" in lab
+    assert "names:glob-pattern-not-matching-itself" not in name_labels({"names": {"etc": "a*", "dirs": ["[x", "y?"]}})
+    for bad in ("", ".", "..", "a/b", "a\0b"):
+        try:
+            dir_names({"names": {"etc": "etc", "dirs": [bad, "x"]}})
+        except HarnessError:
+            continue
+        raise AssertionError("dir_names accepted %r" % (bad,))
+    for k in (False, True):
+        assert not set(SRV_SAYS_NOT_REGISTERED[k]) - set(LEG_SRV if k else PLAT_SRV)
+
+
+DEFAULT_NAMES = ("etc", ["insights-client", "redhat-access-insights"])
+
+
+def dir_names(case):
+    """(name of the parent directory, [name of the current, name of the legacy configuration directory]);
+    optional case key "names": {"etc": str, "dirs": [str, str]} - every name one legal path component"""
+    n = case.get("names")
+    if not n:
+        return DEFAULT_NAMES
+    etc_name, names = n.get("etc") or DEFAULT_NAMES[0], list(n.get("dirs") or DEFAULT_NAMES[1])
+    for x in [etc_name] + names:
+        if (not isinstance(x, str) or not x or x in (".", "..") or "/" in x or "\0" in x
+                or len(x.encode("utf-8")) > 200):
+            raise HarnessError("not a legal path component: %r" % (x,))
+    if len(names) != 2 or names[0] == names[1] or etc_name == "targets":
+        raise HarnessError("the two configuration directories need two different names: %r" % (n,))
+    return etc_name, names
+
+
+def name_labels(case):
+    """which classes of special characters the path of a configuration directory holds"""
+    import fnmatch
+    import glob
+    import shlex
+    etc_name, names = dir_names(case)
+    if (etc_name, names) == DEFAULT_NAMES:
+        return ["names:default"]
+    out = set()
+    for x in [etc_name] + names:
+        if glob.has_magic(x):
+            out.add("names:glob-magic")
+            if not fnmatch.fnmatchcase(x, x):
+                out.add("names:glob-pattern-not-matching-itself")
+        if any(c in ".^$*+?{}[]\\|()" for c in x):
+            out.add("names:regex-special")
+        if shlex.quote(x) != x:
+            out.add("names:shell-special")
+        if "%" in x:
+            out.add("names:percent")
+        if any(c.isspace() for c in x):
+            out.add("names:blank")
+        if any(ord(c) > 127 for c in x):
+            out.add("names:non-ascii")
+        if x.startswith("-") or x.startswith(".") or x.startswith("~"):
+            out.add("names:leading-" + {"-": "dash", ".": "dot", "~": "tilde"}[x[0]])
+    return sorted(out) or ["names:plain-other"]
 
 
 def _tmpbase():
@@ -141,11 +228,14 @@ def _tmpbase():
 class _Sandbox(object):
     def __init__(self, case):
         self.tmp = _LIVE["tmp"] = os.path.realpath(tempfile.mkdtemp(prefix="c17-", dir=_tmpbase()))
-        self.dirs = [os.path.join(self.tmp, "etc", "insights-client"),
-                     os.path.join(self.tmp, "etc", "redhat-access-insights")]
+        # round 6: the names of the configuration directories (and of their parent) come from the case - any
+        # legal path component, also one with characters special to glob / fnmatch / regex / shells / % formatting
+        etc_name, names = dir_names(case)
+        self.etc = os.path.join(self.tmp, etc_name)
+        self.dirs = [os.path.join(self.etc, names[0]), os.path.join(self.etc, names[1])]
         self.targets = os.path.join(self.tmp, "targets")
         os.makedirs(self.targets)
-        os.makedirs(os.path.join(self.tmp, "etc"))
+        os.makedirs(self.etc)
         self.reg = [os.path.join(d, ".registered") for d in self.dirs]
         self.unreg = [os.path.join(d, ".unregistered") for d in self.dirs]
         self.idfile = os.path.join(self.dirs[0], "machine-id")
@@ -222,7 +312,7 @@ class _Sandbox(object):
         """lstat-level picture of the marker paths, for messages"""
         out = {}
         for p in self.reg + self.unreg:
-            key = os.path.relpath(p, os.path.join(self.tmp, "etc"))
+            key = os.path.relpath(p, self.etc)
             if os.path.islink(p):
                 out[key] = "symlink"
             elif os.path.isfile(p):
@@ -329,6 +419,7 @@ def check(case):
                 labels.add("dir%d-absent" % i)
         for _, kind, _, _ in sb.links:
             labels.add("planted:" + kind)
+        labels.update(name_labels(case))
         regop_seen = False
         n_reg = n_unreg = 0
         reads_before_regen = 0
@@ -428,12 +519,15 @@ def check(case):
             if regop_seen:
                 for i in range(2):
                     if os.path.lexists(sb.reg[i]) and os.path.lexists(sb.unreg[i]):
-                        fail("'registered' and 'unregistered' markers exist together in %s"
-                             % os.path.basename(sb.dirs[i]), step)
+                        fail("'registered' and 'unregistered' markers exist together in the %s configuration "
+                             "directory %r" % (("current", "legacy")[i], os.path.basename(sb.dirs[i])), step)
             msg = sb.targets_intact()
             if msg:
                 fail(msg, step)
-        nt = bool((n_reg and n_unreg and sb.links) or regen_between_reads)
+        special = n_reg and n_unreg and "names:default" not in labels
+        if special:
+            labels.add("nt:register+unregister+special-directory-name")
+        nt = bool((n_reg and n_unreg and sb.links) or regen_between_reads or special)
         if n_reg and n_unreg and sb.links:
             labels.add("nt:register+unregister+symlink")
         if regen_between_reads:
@@ -482,6 +576,12 @@ _ANSWERS = {
     "notfound": (404, "{}"),
 }
 ID_DROPPING = ("c_status", "c_unregister", "c_register")   # may unregister the host locally (drops the identifier)
+# round 6: a status check (on its own or as the first step of a legacy registration) may drop the identifier only
+# when the service ANSWERED that it does not know the host / that the host was unregistered; when the service
+# confirmed the host, was unreachable, answered with an error or with something unparsable, nobody asked for a
+# new identifier and the identifier handed out afterwards has to be the established one
+SRV_SAYS_NOT_REGISTERED = {False: ("unknown", "conflict", "gone412"),
+                           True: ("unregistered", "noentry", "notfound", "gone412")}
 # operations that may run while no file can grow (the others do not write, or are actions of the harness)
 FSIZE_OPS = ("c_id", "read", "regen", "c_status", "c_unregister", "c_register", "c_upload", "register", "unregister",
              "del_reg", "del_unreg")
@@ -688,6 +788,17 @@ def _run_ops(sb, case, r, state):
         if got not in state["seen_ids"]:
             state["seen_ids"].append(got)
 
+    def may_drop(kind):
+        """may the operation `kind`, given what the service answered so far, leave the host without its
+        identifier (so that the next one handed out is a new one)?"""
+        if kind == "c_unregister":
+            return True             # the user asked to unregister (with --force also when the service is away)
+        if not wire["valid_before"]:
+            return True             # there was no (valid) identifier before the operation
+        if wire["get"] is None or wire["new_id"]:
+            return True             # no status request went out / the service asked for a new identifier (409)
+        return wire["get"] in SRV_SAYS_NOT_REGISTERED[legacy]
+
     def id_problem(got, how):
         """an identifier handed out by the client (returned to the caller / sent to the service)"""
         try:
@@ -741,7 +852,10 @@ def _run_ops(sb, case, r, state):
             now = _read_bytes(sb.idfile)
             if now != wire["idbytes"]:
                 wire["idbytes"] = now
-                state["expect_id"] = None
+                if may_drop(op["op"]):
+                    state["expect_id"] = None
+                else:
+                    labels.add("id-file-changed-without-answer-of-the-service:" + op["op"])
         if dir0:
             for i in sent:
                 msg = id_problem(i, "sent to the service (%s %s)" % (method, url.split("://")[-1].split("?")[0][-40:]))
@@ -766,6 +880,7 @@ def _run_ops(sb, case, r, state):
             if code == 409:
                 # "If we get a 409, we know we need to generate a new machine-id": a new one is requested
                 state["expect_id"] = None
+                wire["new_id"] = True
                 labels.add("c_register:409-new-id-requested")
             return Resp(code, json.dumps({"machine_id": sent[-1] if sent else None, "account_number": "1234"}),
                         {"x-rh-message": ""})
@@ -802,7 +917,7 @@ def _run_ops(sb, case, r, state):
         return cfg, Conn(cfg)
     cfg, conn = connect()
 
-    etc = os.path.join(sb.tmp, "etc")
+    etc = sb.etc
 
     def perform(op, id_before):
         """interpret one operation; returns (what it did to the registration: "register" / "unregister" / None,
@@ -937,14 +1052,21 @@ def _run_ops(sb, case, r, state):
 
     for step, op in enumerate(ops):
         cur["step"], cur["op"] = step, op
-        wire.update(n=0, posts=0, get=None, served412=False, fail=None)
+        wire.update(n=0, posts=0, get=None, served412=False, fail=None, new_id=False, valid_before=False)
         kind = op["op"]
         fsize_on = cur["fsize"] = op.get("fault") == "fsize" and kind in FSIZE_OPS
         # an operation that runs under an injected fault (no file can grow / as an unprivileged user)
         faulted = kind != "plant" and (fsize_on or user_run)
         was_link = dict((p, os.path.islink(p)) for p in sb.reg + sb.unreg)
         were_together = together()
+        reg0_before = os.path.exists(sb.reg[0])
         id_before = wire["idbytes"] = _read_bytes(sb.idfile)
+        if id_before is not None:
+            try:
+                uuid.UUID(id_before.decode("ascii").strip())
+                wire["valid_before"] = True
+            except ValueError:
+                pass
         failed = None
         try:
             cls, skipped = perform(op, id_before)
@@ -992,19 +1114,43 @@ def _run_ops(sb, case, r, state):
                         state["nt_client_link"] = True
             if kind.startswith("c_"):
                 state["n_client_" + cls] += 1
+        if op.get("final"):
+            labels.add("final-run:identifier-compared")
+        if kind in ("c_status", "c_register") and wire["valid_before"] and wire["get"] and not may_drop(kind):
+            # the service confirmed the host or gave no answer: the identifier has to survive
+            labels.add("identifier-must-survive:%s:%s%s" % (kind, wire["get"],
+                                                          "" if reg0_before else ":no-registered-marker"))
+            if not reg0_before and state["expect_id"] is not None:
+                state["nt_no_answer"] = True
         if kind in ID_DROPPING:
             id_after = _read_bytes(sb.idfile)
             if id_after is None or id_after != id_before:
                 # the host was unregistered (identifier file removed) or the service asked for a new one
-                if state["expect_id"] is not None or id_before is not None:
-                    labels.add("id-dropped-by:" + kind)
-                state["expect_id"] = None
+                if may_drop(kind):
+                    if state["expect_id"] is not None or id_before is not None:
+                        labels.add("id-dropped-by:" + kind)
+                    state["expect_id"] = None
+                else:
+                    # not a request for a new identifier: the expectation stays, the next identifier handed out
+                    # (at the latest by the final run of the case) is compared with it
+                    labels.add("id-file-changed-without-answer-of-the-service:" + kind)
+                    if dir0 and state["expect_id"] is not None:
+                        # model and file system disagree: ask the client for the identifier right away (a plain
+                        # call - as root, no fault), before later operations of the history blur the picture
+                        try:
+                            got = CL.get_machine_id()
+                        except SystemExit as e:
+                            fail("client.get_machine_id() right after %s exited the client (code %r)" % (kind, e.code))
+                        msg = id_problem(got, "returned by client.get_machine_id() right after %s (service: %s)"
+                                         % (kind, wire["get"]))
+                        if msg:
+                            fail(msg)
         now_together = together()
         if state["regop_seen"]:
             for i in range(2):
                 if now_together[i]:
-                    fail("'registered' and 'unregistered' markers exist together in %s%s"
-                         % (os.path.basename(sb.dirs[i]),
+                    fail("'registered' and 'unregistered' markers exist together in the %s configuration directory "
+                         "%r%s" % (("current", "legacy")[i], os.path.basename(sb.dirs[i]),
                             " after %s failed with %s" % (kind, failed) if failed else ""))
         if kind != "plant":
             # no operation of the client - completed or cut short by a fault - puts the two markers side by side
@@ -1062,15 +1208,25 @@ def check_runs(case):
                 labels.add("dir%d-absent" % i)
         for _, kind, _, _ in sb.links:
             labels.add("planted:" + kind)
+        labels.update(name_labels(case))
+        if idf and idf["form"] != "empty" and not os.path.exists(sb.reg[0]):
+            labels.add("init:identifier-without-registered-marker")     # a host that only ran offline so far
         state = {"expect_id": None, "expect_run": 0, "seen_ids": [], "regop_seen": False,
                  "n_register": 0, "n_unregister": 0, "n_client_register": 0, "n_client_unregister": 0,
                  "nt_cross_run": False, "nt_client_link": False,
-                 "id_op_failed": False, "nt_fault_id": False, "nt_fault_markers": False,
+                 "id_op_failed": False, "nt_fault_id": False, "nt_fault_markers": False, "nt_no_answer": False,
                  "labels": sorted(labels), "links": [list(l) for l in sb.links]}
         if idf and idf["form"] != "empty" and is_v4(idf["hex"]):
             state["expect_id"] = str(uuid.UUID(idf["hex"]))
         for r in range(len(case["runs"])):
             state = _in_fresh_process(_run_ops, sb, case, r, state)
+        if dir0 and state["expect_id"] is not None:
+            # round 6: every history ends with one more (plain, fault-free) client run that asks for the identifier
+            # - whatever the last operations did, "the identifier returned stays the same" is observed once more
+            final = dict(case, runs=list(case["runs"]) + [[{"op": "c_id", "rhsm": None, "final": True}]])
+            if case.get("users"):
+                final["users"] = (list(case["users"]) + [0] * len(case["runs"]))[:len(case["runs"])] + [0]
+            state = _in_fresh_process(_run_ops, sb, final, len(case["runs"]), state)
         labels = set(state["labels"])
         if state["nt_cross_run"]:
             labels.add("nt:id-compared-across-runs")
@@ -1078,8 +1234,11 @@ def check_runs(case):
             labels.add("nt:symlink-replaced-by-client-level-op")
         if state["nt_fault_id"]:
             labels.add("nt:id-compared-under-or-after-fault")
+        if state["nt_no_answer"]:
+            labels.add("nt:status-check-without-answer-on-host-with-identifier-but-no-registered-marker")
         nt = bool((state["nt_cross_run"] and (state["n_client_register"] or state["n_client_unregister"]))
-                  or state["nt_client_link"] or state["nt_fault_id"] or state["nt_fault_markers"])
+                  or state["nt_client_link"] or state["nt_fault_id"] or state["nt_fault_markers"]
+                  or state["nt_no_answer"])
         return {"nontrivial": nt, "labels": sorted(labels)}
     finally:
         if sb is not None:
@@ -1097,6 +1256,49 @@ _hex = st.integers(0, 9).flatmap(lambda w: _hex_v4 if w < 8 else _hex_any)
 _rhsm = st.integers(0, 9).flatmap(lambda w: st.none() if w < 4 else (
     st.just("error") if w < 6 else (st.uuids(version=4).map(str) if w < 9 else st.uuids(version=1).map(str))))
 _kind = st.sampled_from(["absent", "absent", "file", "link-file", "link-dangling", "link-dir"])
+
+
+# -- names of the configuration directories (round 6).  A name is 1-4 fragments: ordinary words, and pieces that mean
+# something to glob / fnmatch (bracket expressions - closed, open, negated, ranges -, * and ?), to regular expressions,
+# to % / str.format / string.Template formatting, to shells (blank, quote, $, `, ;, &, |, ~, #, !, leading dash),
+# to configuration file syntaxes (=, :, #, ;, ,) and non-ASCII text; or free text over those characters.
+_WORDS = ["insights-client", "redhat-access-insights", "insights", "etc", "conf.d", "client", "staging", "prod", "v2",
+          "host01", "backup", "old", "new", "a", "x"]
+_BRACKETS = ["[staging]", "[1]", "[a-z]", "[!a]", "[abc]", "[0-9][0-9]", "[prod]", "[]", "[", "]", "[x", "x]", "[[]",
+             "[]]", "[*]", "[?]", "[^a]", "[-]"]
+_GLOBS = ["*", "?", "**", "*.d", "?x", "{a,b}", "{", "}"]
+_REGEX = ["^", "$", "+", ".", "(", ")", "(?i)", "|", "\\", "\\d", ".*", "a{2}"]
+_FORMAT = ["%", "%s", "%d", "%(name)s", "%%", "{}", "{0}", "{name}", "$name", "${name}", "$$"]
+_SHELL = [" ", "  ", "\t", "'", '"', "`", "`id`", "$(id)", ";", "&", "&&", "|", "~", "#", "!", "<", ">", "-", "--", "=", ":",
+          ","]
+_NONASCII = ["\u00e9", "\u00fc\u00f1", "\u65e5\u672c", "\u2014", "\u00a0", "\u0416", "\U0001F600", "e\u0301"]
+_NAME_CHARS = "".join(sorted(set("".join(_BRACKETS + _GLOBS + _REGEX + _FORMAT + _SHELL + _NONASCII) + "abxyz019._-")))
+_fragment = st.integers(0, 13).flatmap(lambda w: st.sampled_from(
+    _WORDS if w < 4 else _BRACKETS if w < 7 else _GLOBS if w < 8 else _REGEX if w < 9 else _FORMAT if w < 10
+    else _SHELL if w < 12 else _NONASCII))
+_name_free = st.text(alphabet=st.sampled_from(_NAME_CHARS), min_size=1, max_size=12)
+_name = st.integers(0, 4).flatmap(
+    lambda w: _name_free if w == 0 else st.lists(_fragment, min_size=1, max_size=4).map("".join))
+
+
+def _legal(name, fallback):
+    if name in (".", "..") or not name.strip(".") or name == "targets":
+        return fallback
+    return name
+
+
+@st.composite
+def _names(draw, p_special=2):
+    """None (the stock names) in 1 of `p_special` + 1... cases, otherwise {"etc", "dirs"}"""
+    if draw(st.integers(0, p_special)) == 0:
+        return None
+    which = draw(st.integers(1, 7))     # bit 0: current directory, bit 1: legacy directory, bit 2: their parent
+    cur = _legal(draw(_name), "insights-client.") if which & 1 else DEFAULT_NAMES[1][0]
+    leg = _legal(draw(_name), "redhat-access-insights.") if which & 2 else DEFAULT_NAMES[1][1]
+    etc = _legal(draw(_name), "etc.") if which & 4 else DEFAULT_NAMES[0]
+    if leg == cur:
+        leg = cur + "-legacy"
+    return {"etc": etc, "dirs": [cur, leg]}
 
 
 @st.composite
@@ -1125,11 +1327,19 @@ def _case(draw, max_ops):
         st.just({"op": "del_reg"}), st.just({"op": "del_unreg"}))
     op = st.one_of(id_ops, marker_ops) if dirs[0]["present"] else marker_ops
     ops = draw(st.lists(op, min_size=1, max_size=max_ops))
-    return {"dirs": dirs, "idfile": idfile, "ops": ops}
+    case = {"dirs": dirs, "idfile": idfile, "ops": ops}
+    names = draw(_names())
+    if names:
+        case["names"] = names
+    return case
 
 
 def strat(tier):
     return _case(20 if tier == "quick" else 40)
+
+
+FIRST_STEPS_NAMES = ["conf[1]", "[a-z]*", "what?", "[!x]y", "my conf", "100%s", "{0}$HOME", "it's;`id`", "-rf",
+                     "~tmp#1", "(a|b)+^$", "back\\slash", "\u65e5\u672c-\u00e9", "[open", "tab\there"]
 
 
 def first_steps(tier):
@@ -1149,12 +1359,31 @@ def first_steps(tier):
                         d1 = {"present": legacy, "registered": u, "unregistered": r} if legacy else {"present": False}
                         out.append({"dirs": [d0, d1], "idfile": None, "ops": [a, b, {"op": "register"},
                                                                                {"op": "unregister", "date": None}]})
+    # round 6: the same prefixes in configuration directories whose names hold characters of each special class
+    # (one representative per class - the generated search of `history` draws the names freely), markers absent /
+    # regular file / symlink to a file
+    for n, name in enumerate(FIRST_STEPS_NAMES):
+        names = [{"etc": "etc", "dirs": [name, "redhat-access-insights"]},
+                 {"etc": "etc", "dirs": ["insights-client", name]},
+                 {"etc": name, "dirs": ["insights-client", "redhat-access-insights"]}][n % 3]
+        for r in KINDS[:3]:
+            for u in KINDS[:3]:
+                for a in ops:
+                    for b in ops:
+                        if a["op"].startswith("del") and b["op"].startswith("del"):
+                            continue
+                        out.append({"dirs": [{"present": True, "registered": r, "unregistered": u},
+                                             {"present": True, "registered": u, "unregistered": r}],
+                                    "idfile": None, "names": names,
+                                    "ops": [a, b, {"op": "register"}, {"op": "unregister", "date": None}]})
     return out
 
 
-_SRV_PLAT = st.sampled_from(["known"] * 3 + ["unknown"] * 3 + ["conflict", "error", "down", "garbage", "gone412"])
+# (round 6: "no answer" - unreachable / error / unparsable - is as likely as each of the two plain answers)
+_SRV_PLAT = st.sampled_from(["known"] * 3 + ["unknown"] * 3 + ["conflict", "error", "down", "down", "garbage",
+                                                               "gone412"])
 _SRV_LEG = st.sampled_from(["registered"] * 3 + ["unregistered"] * 2 + ["noentry"] * 2 +
-                           ["notfound", "error", "garbage", "gone412"])
+                           ["notfound", "error", "error", "garbage", "gone412"])
 _RHSM_RARE = st.integers(0, 9).flatmap(lambda w: st.none() if w < 7 else _rhsm)
 
 
@@ -1208,6 +1437,9 @@ def _runs_case(draw, max_runs, max_ops):
             lambda t: dict(t[0], fault="fsize") if t[1] == 0 and t[0]["op"] in FSIZE_OPS else t[0])
     runs = draw(st.lists(st.lists(op, min_size=1, max_size=max_ops), min_size=1, max_size=max_runs))
     case = {"dirs": dirs, "idfile": idfile, "legacy": legacy, "runs": runs}
+    names = draw(_names(1))
+    if names:
+        case["names"] = names
     if faulty:
         case["own"] = [draw(st.booleans()), draw(st.booleans())]
         case["users"] = [draw(st.sampled_from([0, 0, 0, 1, 1])) for _ in runs]
